@@ -372,6 +372,52 @@ StepPrune(e) ==
           \cup LookupViol(db2, e.loads, truth, e.base)
      /\ UNCHANGED <<cur, fresh>> /\ UnchangedX
 
+\* ------------------------------------------------------------------ pruning through consensus
+\* Histories of harness/inpkg/consensus/zz_verif_c08_consprune_test.go: real block store + real
+\* state store, pruned by the production caller (*State).pruneBlocks(retainHeight).  The raw
+\* records cannot be read from that package: odb is the SPEC's store, evolved by SaveState /
+\* ConsPrune from the observed states; level 1 compares its lookups with the observed ones.
+CLookupViol(loads, tr, b) ==
+  UNION {IF ~HasLoad(loads, h) THEN {V("LookupExact", "not_queried")}
+         ELSE LET got == LoadOf(loads, h) IN
+              FailIf(got.err # "none" \/ got.set # tr[h],
+                     V("LookupExact", IF got.err # "none" THEN (IF h = b THEN "missing_at_base" ELSE "lookup_failed:" \o got.err)
+                                      ELSE IF got.set.prop.a # tr[h].prop.a THEN "wrong_proposer" ELSE "wrong_set"))
+         : h \in {x \in DOMAIN tr : x >= b}}
+
+StepCGenesis(e) ==
+  LET s  == [h |-> 0, ih |-> e.ih, vals |-> AsSet(e.vals), nvals |-> AsSet(e.nvals), lhc |-> e.lhc]
+      db2 == SaveState(EmptyDB, s).db
+      tr == (e.ih :> e.vals) @@ (e.ih + 1 :> e.nvals)
+  IN /\ ost' = s /\ odb' = db2 /\ truth' = tr /\ base' = e.base
+     /\ drift' = drift \cup FailIf(e.err # "none", D("Save (genesis) failed", e.err)) \cup LoadDrift(db2, e.loads)
+     /\ viol' = viol \cup CLookupViol(e.loads, tr, e.base)
+     /\ UNCHANGED <<cur, fresh>> /\ UnchangedX
+
+StepCApply(e) ==
+  LET s2  == [h |-> e.h, ih |-> ost.ih, vals |-> AsSet(e.vals), nvals |-> AsSet(e.nvals), lhc |-> e.lhc]
+      db2 == SaveState(odb, s2).db
+      tr  == (e.height + 2 :> e.nvals) @@ truth
+      b   == IF e.base = 0 THEN base ELSE e.base
+  IN /\ ost' = s2 /\ odb' = db2 /\ truth' = tr /\ base' = b
+     /\ drift' = drift \cup FailIf(e.err # "none", D("Save failed", e.err)) \cup LoadDrift(db2, e.loads)
+     /\ viol' = viol \cup CLookupViol(e.loads, tr, b)
+     /\ UNCHANGED <<cur, fresh>> /\ UnchangedX
+
+\* (*State).pruneBlocks(e.retain): e.from / e.base = blockStore.Base() before / after
+StepCPrune(e) ==
+  LET noop == e.retain <= e.from                      \* pruneBlocks returns early
+      r    == IF noop THEN [err |-> "none", db |-> odb] ELSE ConsPrune(odb, e.from, e.retain)
+      db2  == IF r.err = "none" THEN r.db ELSE odb
+  IN /\ ost' = ost /\ odb' = db2 /\ truth' = truth /\ base' = e.base
+     /\ drift' = drift
+          \cup FailIf((r.err = "none") # (e.err = "none"), D("pruneBlocks outcome differs from spec", r.err))
+          \cup LoadDrift(db2, e.loads)
+     /\ viol' = viol
+          \cup FailIf(e.err # "none" /\ e.retain > e.from /\ e.retain <= e.tip, V("PruneKeeps", "prune_failed"))
+          \cup CLookupViol(e.loads, truth, e.base)
+     /\ UNCHANGED <<cur, fresh>> /\ UnchangedX
+
 StepReset(e) ==
   /\ cur' = EmptySet /\ fresh' = FALSE /\ ost' = NoState /\ odb' = EmptyDB /\ truth' = NoTruth /\ base' = 0
   /\ xcur' = << >> /\ xk' = NoConst
@@ -399,6 +445,9 @@ Step ==
          [] e.ev = "Bootstrap"   -> StepBootstrap(e)
          [] e.ev = "Apply"       -> StepApply(e)
          [] e.ev = "Prune"       -> StepPrune(e)
+         [] e.ev = "CGenesis"    -> StepCGenesis(e)
+         [] e.ev = "CApply"      -> StepCApply(e)
+         [] e.ev = "CPrune"      -> StepCPrune(e)
   /\ l' = l + 1
 
 Finish ==
